@@ -1,0 +1,86 @@
+//go:build verif
+// +build verif
+
+// Contracts for package route, read by /verif's govc (contract-based deductive verification).
+// This file contains comments only; it is compiled only under the build tag "verif" and adds no code.
+
+package route
+
+//@ import "sync"
+//@ import "github.com/cnotch/ipchub/utils"
+
+//@ extern func (mu *sync.RWMutex) Lock() ()
+//@   requires !held(mu)
+//@   modifies held(mu)
+//@   ensures held(mu)
+//@ extern func (mu *sync.RWMutex) Unlock() ()
+//@   requires held(mu)
+//@   modifies held(mu)
+//@   ensures !held(mu)
+//@ extern func (mu *sync.RWMutex) RLock() ()
+//@   requires !held(mu)
+//@   modifies held(mu)
+//@   ensures held(mu)
+//@ extern func (mu *sync.RWMutex) RUnlock() ()
+//@   requires held(mu)
+//@   modifies held(mu)
+//@   ensures !held(mu)
+// canonical paths are non-empty and start with '/' (assumed: strings / path library code)
+//@ extern func utils.CanonicalPath(p string) (r string)
+//@   modifies
+//@   ensures len(r) >= 1 && r[0] == 0x2f
+
+// ---- C17: a pattern matches a path iff it equals it, or it is a directory pattern (ends in '/') that is a prefix ----
+//@ spec func strEqSpec(a string, b string) bool = len(a) == len(b) && forall(i, 0, len(a), a[i] == b[i])
+//@ spec func isPrefix(p string, s string) bool = len(p) <= len(s) && forall(i, 0, len(p), s[i] == p[i])
+//@ func pathMatch(pattern string, path string) (ok bool)
+//@   modifies
+//@   ensures len(pattern) == 0 ==> !ok
+//@   ensures len(pattern) > 0 && pattern[len(pattern)-1] != 0x2f ==> ok == strEqSpec(pattern, path)
+//@   ensures len(pattern) > 0 && pattern[len(pattern)-1] == 0x2f ==> ok == isPrefix(pattern, path)
+
+// Match: nil for a path ending in '/'; an exact hit is returned as a copy; a directory hit is a fresh copy whose
+// Pattern is the requested path and whose URL is the route URL joined with the remainder of the path by exactly
+// one '/'; the table's entries are never modified (frame); no panic for any table (also an empty route URL)
+//@ func (t *routetable) Match(path string) (r *Route)
+//@   requires t != nil && t.m != nil && !held(&t.lock) && mapValuesNonNil(t.m)
+//@   modifies held(&t.lock)
+//@   local k string
+//@   local v *Route
+//@   local n int
+//@   local rangeindex int
+//@   assume[call:pathMatch] v != nil && sameStr(v.Pattern, k)
+//@   loop 0: modifies
+//@   loop 0: invariant 0 <= n && len(path) >= 1 && (r != nil ==> 1 <= len(r.Pattern) && len(r.Pattern) <= len(path) && n == len(r.Pattern))
+//@   ensures !held(&t.lock)
+//@   ensures final(path)[len(final(path))-1] == 0x2f ==> r == nil
+//@   ensures r != nil ==> isFresh(r)
+
+// ---- route table edits (C18), same shape as the user table -----------------------------------------------------
+//@ spec func rlistOK(l []*Route) bool = forall(i, 0, len(l), l[i] != nil)
+//@ spec func tableOK(t *routetable) bool = t != nil && !held(&t.lock) && t.m != nil && mapValuesNonNil(t.m) && rlistOK(t.l) && rlistOK(t.saves) && rlistOK(t.removes) && distinctBacking(t.l, t.saves) && distinctBacking(t.l, t.removes) && distinctBacking(t.saves, t.removes) && len(t.l) <= 1<<30 && len(t.saves) <= 1<<30 && len(t.removes) <= 1<<30
+
+//@ func (t *routetable) Del(pattern string) (err error)
+//@   requires tableOK(t)
+//@   modifies held(&t.lock), t.l, t.l[:cap(t.l)], t.saves, t.saves[:cap(t.saves)], t.removes, t.removes[:cap(t.removes)], mapAll(t.m), all()
+//@   local rangeindex int
+//@   loop 0: modifies
+//@   loop 0: invariant -1 <= rangeindex && rangeindex <= len(t.l) && sameHdr(t.l, old(t.l))
+//@   loop 1: modifies
+//@   loop 1: invariant -1 <= rangeindex && rangeindex <= len(t.saves) && sameHdr(t.saves, old(t.saves))
+//@   ensures err == nil && !held(&t.lock)
+//@   ensures old(t.m[final(pattern)]) != nil ==> t.m[final(pattern)] == nil && len(t.removes) == old(len(t.removes)) + 1 && t.removes[old(len(t.removes))] == old(t.m[final(pattern)])
+//@   ensures old(t.m[final(pattern)]) != nil ==> len(t.l) <= old(len(t.l)) && len(t.l) >= old(len(t.l)) - 1 && len(t.saves) <= old(len(t.saves))
+//@   ensures old(t.m[final(pattern)]) == nil ==> len(t.removes) == old(len(t.removes)) && len(t.saves) == old(len(t.saves)) && len(t.l) == old(len(t.l))
+
+//@ extern func (p Provider) Flush(full []*Route, saves []*Route, removes []*Route) (err error)
+//@   modifies ghostInt(p, "flushes")
+//@   ensures ghostInt(p, "flushes") == old(ghostInt(p, "flushes")) + 1
+//@ func (t *routetable) Flush() (err error)
+//@   requires t != nil && !held(&t.lock) && t.provider != nil && len(t.saves) <= 1<<30 && len(t.removes) <= 1<<30
+//@   modifies held(&t.lock), t.saves, t.removes, ghostInt(t.provider, "flushes")
+//@   ensures !held(&t.lock)
+//@   ensures old(len(t.saves)) + old(len(t.removes)) == 0 ==> err == nil && ghostInt(t.provider, "flushes") == old(ghostInt(t.provider, "flushes"))
+//@   ensures old(len(t.saves)) + old(len(t.removes)) != 0 ==> ghostInt(t.provider, "flushes") == old(ghostInt(t.provider, "flushes")) + 1
+//@   ensures err == nil ==> len(t.saves) == 0 && len(t.removes) == 0
+//@   ensures err != nil ==> len(t.saves) == old(len(t.saves)) && len(t.removes) == old(len(t.removes))
